@@ -160,6 +160,27 @@ EXTRA = [
     "    return [Output(s, 'o', p), Output(r, 'q', p)]\n",
     "from nada_dsl import *\ndef nada_main():\n    p = Party(name='P')\n    a = SecretInteger(Input(name='a', party=p))\n    k = Integer(5)\n    m = +a\n    n = -k\n"
     "    l = [a * k for i in range(3)]\n    t = sum(l)\n    return [Output(t + m, 'o', p)]\n",
+    # a helper defined twice (the later definition, annotated or not, is the one that is called)
+    "from nada_dsl import *\ndef f(x: Integer) -> Integer:\n    return x\ndef f(x: Integer):\n    return [x]\n"
+    "def nada_main():\n    p = Party(name='P')\n    y = f(Integer(1))\n    z = [y]\n    return []\n",
+    "from nada_dsl import *\ndef g(x: Integer) -> Integer:\n    return x\ndef g(x: Integer) -> list[Integer]:\n    return [x]\n"
+    "def nada_main():\n    p = Party(name='P')\n    y = g(Integer(1))\n    z = [y]\n    return []\n",
+    # helpers and variables named like the built-in functions and constructors the subset knows
+    "from nada_dsl import *\ndef str(x: int) -> int:\n    return x\ndef nada_main():\n    p = Party(name='P')\n    y = str(1)\n    z = [y]\n    return []\n",
+    "from nada_dsl import *\ndef sum(xs: list[SecretInteger]) -> list[SecretInteger]:\n    return xs\n"
+    "def nada_main():\n    p = Party(name='P')\n    a = SecretInteger(Input(name='a', party=p))\n    y = sum([a, a])\n    z = [y]\n    return [Output(a, 'o', p)]\n",
+    "from nada_dsl import *\ndef Integer(v: int) -> int:\n    return v\ndef nada_main():\n    p = Party(name='P')\n    y = Integer(1)\n    z = y + 1\n    return []\n",
+    "from nada_dsl import *\ndef range(n: int) -> int:\n    return n\ndef nada_main():\n    p = Party(name='P')\n    y = range(3)\n    z = [y]\n    return []\n",
+    # module-level variables rebound, with another type, after the functions that read them were defined
+    "from nada_dsl import *\nk = 1\ndef nada_main():\n    p = Party(name='P')\n    y = k\n    z = [y]\n    return []\nk = 'a'\n",
+    "from nada_dsl import *\nk = Integer(1)\ndef h(x: Integer) -> Integer:\n    t = x + k\n    return t\nk = 2\n"
+    "def nada_main():\n    p = Party(name='P')\n    y = h(Integer(3))\n    z = [y]\n    return []\n",
+    "from nada_dsl import *\nbase: int = 5\ndef nada_main():\n    p = Party(name='P')\n    y = base + 1\n    return []\nbase: str = 'five'\n",
+    "from nada_dsl import *\nn = 'a'\ndef nada_main():\n    p = Party(name='P')\n    y = n\n    z = [y]\n    return []\nfor n in range(2):\n    m = n\n",
+    # the target of an inner loop is a variable that the enclosing loop's body reads
+    "from nada_dsl import *\ndef nada_main():\n    p = Party(name='P')\n    j = Integer(1)\n    for i in range(2):\n        y = j\n        for j in range(1):\n            z = j\n    return []\n",
+    "from nada_dsl import *\ndef nada_main():\n    p = Party(name='P')\n    a = SecretInteger(Input(name='a', party=p))\n    t = a\n    for i in range(2):\n        for k2 in range(2):\n"
+    "            u = t\n            for t in range(1):\n                v = t\n    return [Output(a, 'o', p)]\n",
 ]
 
 
